@@ -423,6 +423,7 @@ pub fn run_pair<P: TP>(pc: &PairCase, env: &mut Env) -> R {
                 let ro_diff: Vec<Key> = va.difference(vb.clone()).take(lim).map(|x| key_of(x.prefix)).collect();
                 let ro_cdiff: Vec<Key> = va.covering_difference(vb.clone()).take(lim).map(|x| key_of(x.0)).collect();
                 let World { a, b } = &mut w;
+                let c13 = env.focus.has(13);
                 for kind in 0..4u8 {
                     env.cur_op = "view_mut";
                     let Some((mut ma_, _)) = nav_mut(a.map.view_mut(), &pc.nav_a, env) else {
@@ -435,18 +436,18 @@ pub fn run_pair<P: TP>(pc: &PairCase, env: &mut Env) -> R {
                         0 => {
                             env.cur_op = "union_mut";
                             let got: Vec<(Key, bool, bool)> = ma_.union_mut(mb_).take(lim).map(|(p, l, r)| (key_of(p), l.is_some(), r.is_some())).collect();
-                            ensure!(got == ro_union, "C13", "C13:union_mut vs union", "union_mut yields {:?}, union yields {:?}", got, ro_union);
+                            ensure!(got == ro_union, if c13 { "C13" } else { "C05" }, "mut-twin:union_mut vs union", "union_mut yields {:?}, union yields {:?}", got, ro_union);
                         }
                         1 => {
                             env.cur_op = "intersection_mut";
                             let got: Vec<Key> = ma_.intersection_mut(mb_).take(lim).map(|(p, _, _)| key_of(p)).collect();
-                            ensure!(got == ro_inter, "C13", "C13:intersection_mut vs intersection", "intersection_mut yields {:?}, intersection yields {:?}", got, ro_inter);
+                            ensure!(got == ro_inter, if c13 { "C13" } else { "C06" }, "mut-twin:intersection_mut vs intersection", "intersection_mut yields {:?}, intersection yields {:?}", got, ro_inter);
                         }
                         2 => {
                             env.cur_op = "difference_mut";
                             let items: Vec<_> = ma_.difference_mut(&mb_).take(lim).collect();
                             let got: Vec<Key> = items.iter().map(|d| key_of(d.prefix)).collect();
-                            ensure!(got == ro_diff, "C13", "C13:difference_mut vs difference", "difference_mut yields {:?}, difference yields {:?}", got, ro_diff);
+                            ensure!(got == ro_diff, if c13 { "C13" } else { "C07" }, "mut-twin:difference_mut vs difference", "difference_mut yields {:?}, difference yields {:?}", got, ro_diff);
                             if env.focus.has(8) {
                                 for d in &items {
                                     check_lpm_annotation(env, "difference_mut.right", key_of(d.prefix), opt_pv(d.right), &eb, "right")?;
@@ -456,7 +457,7 @@ pub fn run_pair<P: TP>(pc: &PairCase, env: &mut Env) -> R {
                         _ => {
                             env.cur_op = "covering_difference_mut";
                             let got: Vec<Key> = ma_.covering_difference_mut(&mb_).take(lim).map(|(p, _)| key_of(p)).collect();
-                            ensure!(got == ro_cdiff, "C13", "C13:covering_difference_mut vs covering_difference", "covering_difference_mut yields {:?}, covering_difference yields {:?}", got, ro_cdiff);
+                            ensure!(got == ro_cdiff, if c13 { "C13" } else { "C07" }, "mut-twin:covering_difference_mut vs covering_difference", "covering_difference_mut yields {:?}, covering_difference yields {:?}", got, ro_cdiff);
                         }
                     }
                 }
@@ -521,6 +522,8 @@ pub struct PairSpec {
     pub shards: u32,
     pub max_ops: usize,
     pub nontrivial: fn(&Events) -> bool,
+    /// a panic inside one of these crate operations counts as a violation of this property
+    pub panic_ops: Vec<&'static str>,
 }
 
 pub fn render_pair(pc: &PairCase, w: u8) -> String {
@@ -546,6 +549,9 @@ pub fn exec_pair<P: TP>(pc: &PairCase, spec: &PairSpec, known: &BTreeSet<String>
         if f.sig == "C20:panic:count-underflow-after-view-write" && !strict {
             res.fail = None;
         }
+    }
+    if let Some(f) = &mut res.fail {
+        crate::hist::retag_panic(f, spec.id, &spec.panic_ops);
     }
     res.nontrivial = (spec.nontrivial)(&env.ev);
     res.known_hits = env.known_hits.clone();
